@@ -132,9 +132,14 @@ MinMaxN(a, i, m, n) ==
 \* ------------------------------------------------------------------ the evaluator
 RECURSIVE Ev(_, _, _), EvRule(_, _, _), SkipWs(_, _), RepLoop(_, _, _, _, _), Star(_, _, _)
 
+\* With C.ent the history h is the ENTRY LOG instead: one record per evaluation of a rule reference - user rule,
+\* built-in, implicit WHITESPACE / COMMENT - in evaluation order, failed branches included.  This is the sequence
+\* of (rule, position) pairs a listener on the interpreting VM is told about (C17: "the breakpoint hits of the parse").
+Enter(C, n, st) == IF C.ent THEN [st EXCEPT !.h = Append(@, [r |-> n, pos |-> st.pos])] ELSE st
+
 \* zero or more calls of rule n (used by the implicit skip)
 Star(C, n, st) ==
-  LET r == EvRule(C, n, st) IN
+  LET r == EvRule(C, n, Enter(C, n, st)) IN
   IF r.k = "fail" THEN Ok([st EXCEPT !.stk = r.stk, !.h = r.h])
   ELSE IF r.k # "ok" THEN r
   ELSE IF r.pos = st.pos THEN Res(IF r.stk = st.stk THEN "div" ELSE "fuel", st)
@@ -143,7 +148,7 @@ Star(C, n, st) ==
 \* (COMMENT ~ WHITESPACE* )*
 RECURSIVE CommentLoop(_, _)
 CommentLoop(C, st) ==
-  LET c == EvRule(C, "COMMENT", st) IN
+  LET c == EvRule(C, "COMMENT", Enter(C, "COMMENT", st)) IN
   IF c.k = "fail" THEN OkH(st, c)
   ELSE IF c.k # "ok" THEN c
   ELSE LET w == Star(C, "WHITESPACE", St(c)) IN
@@ -249,9 +254,9 @@ Ev(C, e, st) ==
   CASE t = "str"   -> IF StartsWith(inp, p, e.s) THEN Ok(Advance(st, Len(e.s))) ELSE Fail(st)
     [] t = "ins"   -> IF StartsWithInsens(inp, p, e.s) THEN Ok(Advance(st, Len(e.s))) ELSE Fail(st)
     [] t = "range" -> IF p <= Len(inp) /\ InRange(inp[p], e.lo, e.hi) THEN Ok(Advance(st, 1)) ELSE Fail(st)
-    [] t = "id"    -> IF e.n \in Keywords THEN EvBuiltin(C, e.n, st)
-                      ELSE IF Has(C, e.n) THEN EvRule(C, e.n, st)
-                      ELSE EvBuiltin(C, e.n, st)
+    [] t = "id"    -> IF e.n \in Keywords THEN EvBuiltin(C, e.n, Enter(C, e.n, st))
+                      ELSE IF Has(C, e.n) THEN EvRule(C, e.n, Enter(C, e.n, st))
+                      ELSE EvBuiltin(C, e.n, Enter(C, e.n, st))
     [] t = "peek"  ->
          LET len == Len(st.stk)
              lo  == NormIdx(e.lo, len)
@@ -304,7 +309,7 @@ Ev(C, e, st) ==
 \* ------------------------------------------------------------------ top level
 Ctx(G, inp, uni, extras, op, fuel) ==
   [G |-> G, inp |-> inp, uni |-> uni, extras |-> extras, op |-> op,
-   mode |-> "N", la |-> FALSE, neg |-> FALSE, hist |-> FALSE, act |-> {}, fuel |-> fuel]
+   mode |-> "N", la |-> FALSE, neg |-> FALSE, hist |-> FALSE, ent |-> FALSE, act |-> {}, fuel |-> fuel]
 
 St0 == [pos |-> 1, stk |-> <<>>, q |-> <<>>, h |-> <<>>]
 
@@ -315,6 +320,10 @@ Parse(G, inp, uni, extras, op, fuel, start) ==
 \* the same with the attempt history recorded in the result's h
 ParseH(G, inp, uni, extras, fuel, start) ==
   Ev([Ctx(G, inp, uni, extras, FALSE, fuel) EXCEPT !.hist = TRUE], [t |-> "id", n |-> start], St0)
+
+\* the same with the entry log recorded in the result's h (op = TRUE: over the optimized rules the VM runs)
+ParseE(G, inp, uni, extras, op, fuel, start) ==
+  Ev([Ctx(G, inp, uni, extras, op, fuel) EXCEPT !.ent = TRUE], [t |-> "id", n |-> start], St0)
 
 RECURSIVE ByteTok(_, _)
 ByteTok(inp, tk) ==
